@@ -1,7 +1,7 @@
 """C19 — attribute flags print to an expression with the same numeric value."""
 
 def run(ctx):
-    if not ctx.build_harness():
+    if not ctx.build_harness(['c19.go']):
         return
     ctx.regen([("Gen/TextFlags", "TextFlags"), ("Oracle/TextFlagH", "TextFlagH")])
     ctx.forbidden_scan()
